@@ -17,9 +17,9 @@ theorem Inv.ikRow {w : World} (hi : Inv w) {r : Row} {p : Nat} (hr : r ∈ w.sto
   rw [← hc'']; exact hi.wf.nz r' hr'
 
 /-- the decrypt-and-wrap body of `intermediateKeyFromEKR`, given the right system key. -/
-theorem ikBody_spec {a : Nat} {F : Prop} (r : Row) (sk' : Nat) (p : Nat) (c : Int) (skm n mat : Nat)
+theorem ikBody_cspec {a : Nat} {F : Prop} (r : Row) (sk' : Nat) (p : Nat) (c : Int) (skm n mat : Nat)
     (hk : r.kid = .ik p) (henc : r.enc = .enc skm n (.key mat)) :
-    Spec a F (fun w => r ∈ w.store ∧ Wraps w.store ⟨.sk, c⟩ skm ∧ GoodKeyAt w ⟨.sk, c⟩ sk')
+    CSpec a F (fun w => r ∈ w.store ∧ Wraps w.store ⟨.sk, c⟩ skm ∧ GoodKeyAt w ⟨.sk, c⟩ sk')
       (do
         let pt ← withKey sk' fun skm => aeadDecrypt r.enc skm
         match pt with
@@ -29,25 +29,25 @@ theorem ikBody_spec {a : Nat} {F : Prop} (r : Row) (sk' : Nat) (p : Nat) (c : In
           newKeyObj r.created r.revoked m s
         | .payload _ => throw .aead)
       (fun k w => GoodKeyAt w ⟨r.kid, r.created⟩ k) := by
-  apply Spec.bind_frame (P' := fun w => Wraps w.store ⟨.sk, c⟩ skm ∧ GoodKeyAt w ⟨.sk, c⟩ sk')
+  apply CSpec.bind_frame (P' := fun w => Wraps w.store ⟨.sk, c⟩ skm ∧ GoodKeyAt w ⟨.sk, c⟩ sk')
     (G1 := fun pt _ => ∃ n', r.enc = .enc skm n' pt) _ (fun w _ h => h.2) (by stable_auto)
   · intro pt
-    apply Spec.of_pre (C := pt = .key mat) (by ext_auto [secretNew_ext])
+    apply CSpec.of_pre (C := pt = .key mat) (by ext_auto [secretNew_ext])
       (fun w _ h => by obtain ⟨n', hn'⟩ := h.2; rw [henc] at hn'; cases hn'; rfl)
     intro hpt
     subst hpt
     dsimp only
-    apply Spec.pre (P := fun w => r ∈ w.store) (fun w _ h => h.1.1)
-    apply Spec.bind_frame (newBuf_spec mat) (fun _ _ _ => trivial) (Stable.mem_store r)
+    apply CSpec.pre (P := fun w => r ∈ w.store) (fun w _ h => h.1.1)
+    apply CSpec.bind_frame (newBuf_cspec mat) (fun _ _ _ => trivial) (Stable.mem_store r)
     intro b
-    apply Spec.pre (P := fun w => r ∈ w.store) (fun w _ h => h.1)
-    apply Spec.bind_frame (secretNew_spec b mat) (fun _ _ _ => trivial) (Stable.mem_store r)
+    apply CSpec.pre (P := fun w => r ∈ w.store) (fun w _ h => h.1)
+    apply CSpec.bind_frame (secretNew_cspec b mat) (fun _ _ _ => trivial) (Stable.mem_store r)
     intro s
-    apply Spec.pre (P := fun w => r ∈ w.store) (fun w _ h => h.1)
-    refine Spec.frame (newKeyObj_spec r.created r.revoked mat s) (fun _ _ _ => trivial) (Stable.mem_store r)
+    apply CSpec.pre (P := fun w => r ∈ w.store) (fun w _ h => h.1)
+    refine CSpec.frame (newKeyObj_cspec r.created r.revoked mat s) (fun _ _ _ => trivial) (Stable.mem_store r)
       fun k w _ hr h => GoodKeyAt.of_keyIs h ⟨r, hr, rfl, rfl, ?_⟩
     unfold RowMat; rw [hk]; exact ⟨skm, n, henc⟩
-  · refine Spec.withKey skm (fun w hi h => ?_) (fun m => aeadDecrypt_ext _ _)
+  · refine CSpec.withKey skm (fun w hi h => ?_) (fun m => aeadDecrypt_ext _ _)
       ((aeadDecrypt_spec r.enc skm).pre fun w _ _ _ => ⟨n, _, henc⟩)
     obtain ⟨mat', hki, hw⟩ := h.2.keyIs
     have := Wraps.unique hi.wf hw h.1
@@ -56,9 +56,9 @@ theorem ikBody_spec {a : Nat} {F : Prop} (r : Row) (sk' : Nat) (p : Nat) (c : In
 
 theorem pure_bind_M {α β : Type} (v : α) (f : α → M β) : (pure v >>= f : M β) = f v := rfl
 
-theorem ikTail_spec {a : Nat} {F : Prop} (r : Row) (sk' : Nat) (loaded rl : Bool) (p : Nat) (c : Int) (skm n mat : Nat)
+theorem ikTail_cspec {a : Nat} {F : Prop} (r : Row) (sk' : Nat) (loaded rl : Bool) (p : Nat) (c : Int) (skm n mat : Nat)
     (hk : r.kid = .ik p) (henc : r.enc = .enc skm n (.key mat)) :
-    Spec a F (fun w => r ∈ w.store ∧ Wraps w.store ⟨.sk, c⟩ skm ∧ GoodKeyAt w ⟨.sk, c⟩ sk')
+    CSpec a F (fun w => r ∈ w.store ∧ Wraps w.store ⟨.sk, c⟩ skm ∧ GoodKeyAt w ⟨.sk, c⟩ sk')
       (if loaded && rl then finallyDo (do
         let pt ← withKey sk' fun skm => aeadDecrypt r.enc skm
         match pt with
@@ -76,35 +76,35 @@ theorem ikTail_spec {a : Nat} {F : Prop} (r : Row) (sk' : Nat) (loaded rl : Bool
           newKeyObj r.created r.revoked m s
         | .payload _ => throw .aead))
       (fun k w => GoodKeyAt w ⟨r.kid, r.created⟩ k) := by
-  apply Spec.ite <;> intro _
-  · exact Spec.finallyDo (ikBody_spec r sk' p c skm n mat hk henc) (fun _ => Stable.goodKeyAt _ _) (keyRelease_spec sk')
-  · exact ikBody_spec r sk' p c skm n mat hk henc
+  apply CSpec.ite <;> intro _
+  · exact CSpec.finallyDo (ikBody_cspec r sk' p c skm n mat hk henc) (fun _ => Stable.goodKeyAt _ _) (keyRelease_cspec sk')
+  · exact ikBody_cspec r sk' p c skm n mat hk henc
 
-theorem intermediateKeyFromEKR_spec {a : Nat} {F : Prop} (x : Ctx) (sk : Nat) (r : Row) (rl : Bool)
+theorem intermediateKeyFromEKR_cspec {a : Nat} {F : Prop} (x : Ctx) (sk : Nat) (r : Row) (rl : Bool)
     (hrk : r.kid = x.ikId) :
-    Spec a F (fun w => r ∈ w.store ∧ GoodFor ⟨.sk, 0⟩ sk w) (intermediateKeyFromEKR x sk r rl)
+    CSpec a F (fun w => r ∈ w.store ∧ GoodFor ⟨.sk, 0⟩ sk w) (intermediateKeyFromEKR x sk r rl)
       (fun k w => GoodKeyAt w ⟨r.kid, r.created⟩ k) := by
   have hext := intermediateKeyFromEKR_ext x sk r rl
-  apply Spec.pre (P := fun w => ∃ c skm n mat, (r.parent = some ⟨.sk, c⟩ ∧ r.enc = .enc skm n (.key mat) ∧ c ≠ 0) ∧
+  apply CSpec.pre (P := fun w => ∃ c skm n mat, (r.parent = some ⟨.sk, c⟩ ∧ r.enc = .enc skm n (.key mat) ∧ c ≠ 0) ∧
       ∃ m0 : KeyMeta, m0.kid = .sk ∧ (r ∈ w.store ∧ Wraps w.store ⟨.sk, c⟩ skm ∧ GoodKeyAt w m0 sk))
   · intro w hi h
     obtain ⟨c, skm, n, mat, h1, h2⟩ := hi.ikRow h.1 hrk
     obtain ⟨m0, hm0, _, hg⟩ := h.2
     exact ⟨c, skm, n, mat, h1, m0, hm0, h.1, h2, hg⟩
-  apply Spec.exists_pre hext; intro c
-  apply Spec.exists_pre hext; intro skm
-  apply Spec.exists_pre hext; intro n
-  apply Spec.exists_pre hext; intro mat
-  apply Spec.of_pre (C := r.parent = some ⟨.sk, c⟩ ∧ r.enc = .enc skm n (.key mat) ∧ c ≠ 0) hext (fun w _ h => h.1)
+  apply CSpec.exists_pre hext; intro c
+  apply CSpec.exists_pre hext; intro skm
+  apply CSpec.exists_pre hext; intro n
+  apply CSpec.exists_pre hext; intro mat
+  apply CSpec.of_pre (C := r.parent = some ⟨.sk, c⟩ ∧ r.enc = .enc skm n (.key mat) ∧ c ≠ 0) hext (fun w _ h => h.1)
   intro ⟨hpar, henc, hcz⟩
-  apply Spec.pre (P := fun w => ∃ m0 : KeyMeta, m0.kid = .sk ∧ (r ∈ w.store ∧ Wraps w.store ⟨.sk, c⟩ skm ∧ GoodKeyAt w m0 sk))
+  apply CSpec.pre (P := fun w => ∃ m0 : KeyMeta, m0.kid = .sk ∧ (r ∈ w.store ∧ Wraps w.store ⟨.sk, c⟩ skm ∧ GoodKeyAt w m0 sk))
     (fun w _ h => h.2)
-  apply Spec.exists_pre hext; intro m0
-  apply Spec.of_pre (C := m0.kid = .sk) hext (fun w _ h => h.1)
+  apply CSpec.exists_pre hext; intro m0
+  apply CSpec.of_pre (C := m0.kid = .sk) hext (fun w _ h => h.1)
   intro hm0
-  apply Spec.pre (P := fun w => r ∈ w.store ∧ Wraps w.store ⟨.sk, c⟩ skm ∧ GoodKeyAt w m0 sk) (fun w _ h => h.2)
+  apply CSpec.pre (P := fun w => r ∈ w.store ∧ Wraps w.store ⟨.sk, c⟩ skm ∧ GoodKeyAt w m0 sk) (fun w _ h => h.2)
   unfold intermediateKeyFromEKR
-  apply Spec.bind_frame (keyObj_created_spec sk m0.created fun w _ h => h.2.2.keyIs') (fun _ _ h => h) (by stable_auto)
+  apply CSpec.bind_frame (keyObj_created_spec sk m0.created fun w _ h => h.2.2.keyIs') (fun _ _ h => h) (by stable_auto)
   intro so
   rw [hpar]
   dsimp only
@@ -112,46 +112,46 @@ theorem intermediateKeyFromEKR_spec {a : Nat} {F : Prop} (x : Ctx) (sk : Nat) (r
   | sk => unfold Ctx.ikId at hrk'; cases hrk'
   | ik p =>
     have hk : r.kid = .ik p := hrk.trans hrk'
-    apply Spec.ite <;> intro hne
-    · apply Spec.bind_frame (getOrLoadSystemKey_spec x ⟨.sk, c⟩ rfl) (fun w _ h _ => ⟨skm, h.1.2.1⟩) (by stable_auto)
+    apply CSpec.ite <;> intro hne
+    · apply CSpec.bind_frame (getOrLoadSystemKey_cspec x ⟨.sk, c⟩ rfl) (fun w _ h _ => ⟨skm, h.1.2.1⟩) (by stable_auto)
       intro l
       rw [pure_bind_M]
-      exact (ikTail_spec r l true rl p c skm n mat hk henc).pre
+      exact (ikTail_cspec r l true rl p c skm n mat hk henc).pre
         fun w _ h => ⟨h.1.1.1, h.1.1.2.1, GoodFor.of_nz hcz h.2⟩
     · rw [pure_bind_M]
-      refine (ikTail_spec r sk false rl p c skm n mat hk henc).pre
+      refine (ikTail_cspec r sk false rl p c skm n mat hk henc).pre
         fun w _ h => ⟨h.1.1, h.1.2.1, h.1.2.2.congr hm0 ?_⟩
       have := Classical.not_not.mp hne
       exact h.2.symm.trans this
 
-theorem tryStoreIntermediateKey_spec {a : Nat} {F : Prop} (x : Ctx) (ik sk : Nat) (ci : Int) (mi : Nat) (hci : ci ≠ 0)
+theorem tryStoreIntermediateKey_cspec {a : Nat} {F : Prop} (x : Ctx) (ik sk : Nat) (ci : Int) (mi : Nat) (hci : ci ≠ 0)
     (m0 : KeyMeta) (hm0 : m0.kid = .sk) :
-    Spec a F (fun w => KeyIs w ik ci mi ∧ GoodKeyAt w m0 sk) (tryStoreIntermediateKey x ik sk)
+    CSpec a F (fun w => KeyIs w ik ci mi ∧ GoodKeyAt w m0 sk) (tryStoreIntermediateKey x ik sk)
       (fun b w => (b = true → GoodKeyAt w ⟨x.ikId, ci⟩ ik) ∧
         (b = false → F → ∃ r', r' ∈ w.store ∧ r'.kid = x.ikId)) := by
   have hext := tryStoreIntermediateKey_ext x ik sk
-  apply Spec.pre (P := fun w => ∃ skm, KeyIs w ik ci mi ∧ KeyIs w sk m0.created skm ∧ Wraps w.store m0 skm)
+  apply CSpec.pre (P := fun w => ∃ skm, KeyIs w ik ci mi ∧ KeyIs w sk m0.created skm ∧ Wraps w.store m0 skm)
   · intro w _ h
     obtain ⟨skm, h1, h2⟩ := h.2.keyIs
     exact ⟨skm, h.1, h1, h2⟩
-  apply Spec.exists_pre hext; intro skm
+  apply CSpec.exists_pre hext; intro skm
   unfold tryStoreIntermediateKey
-  apply Spec.bind_frame (keyObj_spec ik ci mi fun w _ h => h.1) (fun _ _ h => h) (by stable_auto)
+  apply CSpec.bind_frame (keyObj_spec ik ci mi fun w _ h => h.1) (fun _ _ h => h) (by stable_auto)
   intro io
-  apply Spec.bind_frame (keyObj_spec sk m0.created skm fun w _ h => h.1.2.1) (fun _ _ h => h) (by stable_auto)
+  apply CSpec.bind_frame (keyObj_spec sk m0.created skm fun w _ h => h.1.2.1) (fun _ _ h => h) (by stable_auto)
   intro so
   have hwk : ∀ ikm, Extends (withKey sk fun skm => aeadEncrypt (.key ikm) skm) :=
     fun ikm => withKey_ext _ _ fun skm => aeadEncrypt_ext _ _
-  apply Spec.bind_frame (G1 := fun enc _ => ∃ n, enc = .enc skm n (.key mi))
+  apply CSpec.bind_frame (G1 := fun enc _ => ∃ n, enc = .enc skm n (.key mi))
     (P' := fun w => KeyIs w ik ci mi ∧ KeyIs w sk m0.created skm) _ (fun w _ h => ⟨h.1.1.1, h.1.1.2.1⟩)
     (by stable_auto)
   · intro enc
-    apply Spec.of_pre (C := (io.created = ci ∧ so.created = m0.created) ∧ ∃ n, enc = .enc skm n (.key mi)) (msStore_ext _)
+    apply CSpec.of_pre (C := (io.created = ci ∧ so.created = m0.created) ∧ ∃ n, enc = .enc skm n (.key mi)) (msStore_ext _)
       (fun w _ h => ⟨⟨h.1.1.2.1, h.1.2.1⟩, h.2⟩)
     intro ⟨⟨hio, hso⟩, n, henc⟩
-    apply Spec.pre (P := fun w => KeyIs w ik ci mi ∧ Wraps w.store m0 skm) (fun w _ h => ⟨h.1.1.1.1, h.1.1.1.2.2⟩)
+    apply CSpec.pre (P := fun w => KeyIs w ik ci mi ∧ Wraps w.store m0 skm) (fun w _ h => ⟨h.1.1.1.1, h.1.1.1.2.2⟩)
     have hm0' : (⟨.sk, so.created⟩ : KeyMeta) = m0 := by cases m0; simp only at hm0 hso; rw [hm0, hso]
-    refine Spec.frame (msStore_spec _) (fun w _ h => ⟨?_, by simpa [hio] using hci⟩) (by stable_auto)
+    refine CSpec.frame (msStore_spec _) (fun w _ h => ⟨?_, by simpa [hio] using hci⟩) (by stable_auto)
       fun b w _ hp h => ⟨fun hb => ?_, fun hb hF => ?_⟩
     · unfold RowGood
       dsimp only [Ctx.ikId]
@@ -160,36 +160,36 @@ theorem tryStoreIntermediateKey_spec {a : Nat} {F : Prop} (x : Ctx) (ik sk : Nat
       unfold RowMat; dsimp only [Ctx.ikId]; exact ⟨skm, n, henc⟩
     · obtain ⟨r', h1, h2, _⟩ := h.2 hb hF
       exact ⟨r', h1, h2⟩
-  · exact Spec.withKey mi (fun w _ h => ⟨ci, h.1⟩) hwk
-      (Spec.withKey skm (fun w _ h => ⟨_, h.2⟩) (fun skm => aeadEncrypt_ext _ _) (aeadEncrypt_spec _ _))
+  · exact CSpec.withKey mi (fun w _ h => ⟨ci, h.1⟩) hwk
+      (CSpec.withKey skm (fun w _ h => ⟨_, h.2⟩) (fun skm => aeadEncrypt_ext _ _) (aeadEncrypt_spec _ _))
 
-theorem getValidIntermediateKey_spec {a : Nat} {F : Prop} (x : Ctx) (sk : Nat) (r : Row) (rl : Bool)
+theorem getValidIntermediateKey_cspec {a : Nat} {F : Prop} (x : Ctx) (sk : Nat) (r : Row) (rl : Bool)
     (hrk : r.kid = x.ikId) :
-    Spec a F (fun w => r ∈ w.store ∧ GoodFor ⟨.sk, 0⟩ sk w) (getValidIntermediateKey x sk r rl)
+    CSpec a F (fun w => r ∈ w.store ∧ GoodFor ⟨.sk, 0⟩ sk w) (getValidIntermediateKey x sk r rl)
       (fun ko w => ∀ k, ko = some k → GoodKeyAt w ⟨r.kid, r.created⟩ k) := by
   unfold getValidIntermediateKey
-  apply Spec.bind_frame (keyObj_spec' sk) (fun _ _ _ => trivial) (by stable_auto)
+  apply CSpec.bind_frame (keyObj_spec' sk) (fun _ _ _ => trivial) (by stable_auto)
   intro so
-  apply Spec.pre (P := fun w => r ∈ w.store ∧ GoodFor ⟨.sk, 0⟩ sk w) (fun w _ h => h.1)
-  apply Spec.bind_frame Spec.get (fun _ _ _ => trivial) (by stable_auto)
+  apply CSpec.pre (P := fun w => r ∈ w.store ∧ GoodFor ⟨.sk, 0⟩ sk w) (fun w _ h => h.1)
+  apply CSpec.bind_frame CSpec.get (fun _ _ _ => trivial) (by stable_auto)
   intro w0
-  apply Spec.ite <;> intro _
-  · exact Spec.pure _ fun w _ _ k hk => by cases hk
-  · apply Spec.pre (P := fun w => r ∈ w.store ∧ GoodFor ⟨.sk, 0⟩ sk w) (fun w _ h => h.1)
-    apply Spec.bind (intermediateKeyFromEKR_spec x sk r rl hrk).tryM
+  apply CSpec.ite <;> intro _
+  · exact CSpec.pure _ fun w _ _ k hk => by cases hk
+  · apply CSpec.pre (P := fun w => r ∈ w.store ∧ GoodFor ⟨.sk, 0⟩ sk w) (fun w _ h => h.1)
+    apply CSpec.bind (intermediateKeyFromEKR_cspec x sk r rl hrk).tryM
     intro res
     split
-    · exact Spec.pure _ fun w _ h k hk => by cases hk; exact h.1 _ rfl
-    · exact Spec.pure _ fun w _ _ k hk => by cases hk
+    · exact CSpec.pure _ fun w _ h k hk => by cases hk; exact h.1 _ rfl
+    · exact CSpec.pure _ fun w _ _ k hk => by cases hk
 
-theorem createIntermediateKey_spec {a : Nat} {F : Prop} (x : Ctx) (rl : Bool) :
-    Spec a F (TimeOK x) (createIntermediateKey x rl) (GoodFor ⟨x.ikId, 0⟩) := by
+theorem createIntermediateKey_cspec {a : Nat} {F : Prop} (x : Ctx) (rl : Bool) :
+    CSpec a F (TimeOK x) (createIntermediateKey x rl) (GoodFor ⟨x.ikId, 0⟩) := by
   unfold createIntermediateKey
-  apply Spec.bind_frame (getOrLoadLatest_spec x.skCache .sk _ _ _ (fun _ => loadLatestOrCreateSystemKey_ext x)
-    (Stable.timeOK x) (loadLatestOrCreateSystemKey_spec x)) (fun _ _ h => h) (Stable.timeOK x)
+  apply CSpec.bind_frame (getOrLoadLatest_cspec x.skCache .sk _ _ _ (fun _ => loadLatestOrCreateSystemKey_ext x)
+    (Stable.timeOK x) (loadLatestOrCreateSystemKey_cspec x)) (fun _ _ h => h) (Stable.timeOK x)
   intro sk
-  refine Spec.finallyDo ?_ (fun _ => Stable.goodFor _ _) (keyRelease_spec sk)
-  apply Spec.bind_frame (generateKey_spec x) (fun _ _ h => h.1) (by stable_auto)
+  refine CSpec.finallyDo ?_ (fun _ => Stable.goodFor _ _) (keyRelease_cspec sk)
+  apply CSpec.bind_frame (generateKey_cspec x) (fun _ _ h => h.1) (by stable_auto)
   intro ik
   have hext : Extends (do
       match ← tryM (tryStoreIntermediateKey x ik sk) with
@@ -202,61 +202,61 @@ theorem createIntermediateKey_spec {a : Nat} {F : Prop} (x : Ctx) (rl : Bool) :
         keyCloseRaw ik
         throw e) := by
     ext_auto [tryStoreIntermediateKey_ext, keyCloseRaw_ext, mustLoadLatest_ext, intermediateKeyFromEKR_ext]
-  apply Spec.pre (P := fun w => ∃ ci mi, ∃ m0 : KeyMeta, (ci ≠ 0 ∧ m0.kid = .sk) ∧ KeyIs w ik ci mi ∧ GoodKeyAt w m0 sk)
+  apply CSpec.pre (P := fun w => ∃ ci mi, ∃ m0 : KeyMeta, (ci ≠ 0 ∧ m0.kid = .sk) ∧ KeyIs w ik ci mi ∧ GoodKeyAt w m0 sk)
   · intro w _ h
     obtain ⟨ci, mi, hki, hci⟩ := h.2
     obtain ⟨m0, hm0, _, hg⟩ := h.1.2
     exact ⟨ci, mi, m0, ⟨hci, hm0⟩, hki, hg⟩
-  apply Spec.exists_pre hext; intro ci
-  apply Spec.exists_pre hext; intro mi
-  apply Spec.exists_pre hext; intro m0
-  apply Spec.of_pre (C := ci ≠ 0 ∧ m0.kid = .sk) hext (fun w _ h => h.1)
+  apply CSpec.exists_pre hext; intro ci
+  apply CSpec.exists_pre hext; intro mi
+  apply CSpec.exists_pre hext; intro m0
+  apply CSpec.of_pre (C := ci ≠ 0 ∧ m0.kid = .sk) hext (fun w _ h => h.1)
   intro ⟨hci, hm0⟩
-  apply Spec.pre (P := fun w => KeyIs w ik ci mi ∧ GoodKeyAt w m0 sk) (fun w _ h => h.2)
-  apply Spec.bind_frame (tryStoreIntermediateKey_spec x ik sk ci mi hci m0 hm0).tryM (fun _ _ h => h) (by stable_auto)
+  apply CSpec.pre (P := fun w => KeyIs w ik ci mi ∧ GoodKeyAt w m0 sk) (fun w _ h => h.2)
+  apply CSpec.bind_frame (tryStoreIntermediateKey_cspec x ik sk ci mi hci m0 hm0).tryM (fun _ _ h => h) (by stable_auto)
   intro res
   split
-  · exact Spec.pure _ fun w _ h => ((h.2.1 _ rfl).1 rfl).goodFor0
-  · apply Spec.pre (P := fun w => GoodKeyAt w m0 sk ∧ (F → ∃ r', r' ∈ w.store ∧ r'.kid = x.ikId))
+  · exact CSpec.pure _ fun w _ h => ((h.2.1 _ rfl).1 rfl).goodFor0
+  · apply CSpec.pre (P := fun w => GoodKeyAt w m0 sk ∧ (F → ∃ r', r' ∈ w.store ∧ r'.kid = x.ikId))
       (fun w _ h => ⟨h.1.2, fun hF => (h.2.1 _ rfl).2 rfl hF⟩)
-    apply Spec.bind_frame (keyCloseRaw_spec ik) (fun _ _ _ => trivial) (by stable_auto)
+    apply CSpec.bind_frame (keyCloseRaw_cspec ik) (fun _ _ _ => trivial) (by stable_auto)
     intro _
-    apply Spec.pre (P := fun w => GoodKeyAt w m0 sk ∧ (F → ∃ r', r' ∈ w.store ∧ r'.kid = x.ikId)) (fun w _ h => h.1)
-    apply Spec.bind_frame (mustLoadLatest_spec x.ikId) (fun w _ h => h.2) (by stable_auto)
+    apply CSpec.pre (P := fun w => GoodKeyAt w m0 sk ∧ (F → ∃ r', r' ∈ w.store ∧ r'.kid = x.ikId)) (fun w _ h => h.1)
+    apply CSpec.bind_frame (mustLoadLatest_spec x.ikId) (fun w _ h => h.2) (by stable_auto)
     intro r
-    apply Spec.of_pre (C := r.kid = x.ikId) (intermediateKeyFromEKR_ext x sk r rl) (fun w _ h => h.2.2)
+    apply CSpec.of_pre (C := r.kid = x.ikId) (intermediateKeyFromEKR_ext x sk r rl) (fun w _ h => h.2.2)
     intro hrk
-    refine (intermediateKeyFromEKR_spec x sk r rl hrk).weaken
+    refine (intermediateKeyFromEKR_cspec x sk r rl hrk).weaken
       (fun w _ h => ⟨h.2.1, ⟨m0, hm0, fun hz => absurd rfl hz, h.1.1⟩⟩) fun k w _ h => ?_
     have := h.goodFor0
     rw [hrk] at this
     exact this
-  · apply Spec.of_mode (by ext_auto [keyCloseRaw_ext])
+  · apply CSpec.of_mode (by ext_auto [keyCloseRaw_ext])
     · intro hF
-      apply Spec.pre (P := fun _ => False) (fun w _ h => by obtain ⟨v, hv⟩ := h.2.2 hF; cases hv)
+      apply CSpec.pre (P := fun _ => False) (fun w _ h => by obtain ⟨v, hv⟩ := h.2.2 hF; cases hv)
       exact ⟨by ext_auto [keyCloseRaw_ext], fun w _ _ _ h => h.elim⟩
     · intro hF
-      apply Spec.bind (keyCloseRaw_spec ik)
+      apply CSpec.bind (keyCloseRaw_cspec ik)
       intro _
-      exact Spec.throw _ fun _ _ _ => hF
+      exact CSpec.throw _ fun _ _ _ => hF
 
 theorem ikId_eq (x : Ctx) : x.ikId = .ik x.part := rfl
 
-theorem loadLatestOrCreateIntermediateKey_spec {a : Nat} {F : Prop} (x : Ctx) (rl : Bool) :
-    Spec a F (TimeOK x) (loadLatestOrCreateIntermediateKey x rl) (GoodFor ⟨x.ikId, 0⟩) := by
+theorem loadLatestOrCreateIntermediateKey_cspec {a : Nat} {F : Prop} (x : Ctx) (rl : Bool) :
+    CSpec a F (TimeOK x) (loadLatestOrCreateIntermediateKey x rl) (GoodFor ⟨x.ikId, 0⟩) := by
   unfold loadLatestOrCreateIntermediateKey
-  apply Spec.bind_frame (msLoadLatest_spec x.ikId) (fun _ _ _ => trivial) (Stable.timeOK x)
+  apply CSpec.bind_frame (msLoadLatest_spec x.ikId) (fun _ _ _ => trivial) (Stable.timeOK x)
   intro ro
-  apply Spec.pre (P := fun w => TimeOK x w ∧ ∀ r, ro = some r → r ∈ w.store ∧ r.kid = x.ikId)
+  apply CSpec.pre (P := fun w => TimeOK x w ∧ ∀ r, ro = some r → r ∈ w.store ∧ r.kid = x.ikId)
     (fun w _ h => ⟨h.1, fun r hr => latestRow_some (hr ▸ h.2).symm⟩)
-  apply Spec.bind_frame Spec.get (fun _ _ _ => trivial) (by stable_auto)
+  apply CSpec.bind_frame CSpec.get (fun _ _ _ => trivial) (by stable_auto)
   intro w0
   split
-  · exact (createIntermediateKey_spec x rl).pre fun w _ h => h.1.1
+  · exact (createIntermediateKey_cspec x rl).pre fun w _ h => h.1.1
   · rename_i r
-    apply Spec.pre (P := fun w => TimeOK x w ∧ r ∈ w.store ∧ r.kid = x.ikId) (fun w _ h => ⟨h.1.1, h.1.2 r rfl⟩)
-    apply Spec.ite <;> intro _
-    · exact (createIntermediateKey_spec x rl).pre fun w _ h => h.1
+    apply CSpec.pre (P := fun w => TimeOK x w ∧ r ∈ w.store ∧ r.kid = x.ikId) (fun w _ h => ⟨h.1.1, h.1.2 r rfl⟩)
+    apply CSpec.ite <;> intro _
+    · exact (createIntermediateKey_cspec x rl).pre fun w _ h => h.1
     · have hext : Extends (match r.parent with
           | none => throw .noParent
           | some p => do
@@ -268,31 +268,31 @@ theorem loadLatestOrCreateIntermediateKey_spec {a : Nat} {F : Prop} (x : Ctx) (r
                 | some ik => pure ik
                 | none => createIntermediateKey x rl) (keyRelease sk)) := by
         ext_auto [createIntermediateKey_ext, getOrLoadSystemKey_ext, getValidIntermediateKey_ext, keyRelease_ext]
-      apply Spec.of_pre (C := r.kid = x.ikId ∧ ∃ c, r.parent = some ⟨.sk, c⟩ ∧ c ≠ 0) hext
+      apply CSpec.of_pre (C := r.kid = x.ikId ∧ ∃ c, r.parent = some ⟨.sk, c⟩ ∧ c ≠ 0) hext
       · intro w hi h
         obtain ⟨c, skm, n, mat, h1, h2⟩ := hi.ikRow h.2.1 (h.2.2.trans (ikId_eq x))
         exact ⟨h.2.2, c, h1.1, h1.2.2⟩
       intro ⟨hrk, c, hpar, hcz⟩
       rw [hpar]
       dsimp only
-      apply Spec.bind_frame (G1 := fun res w => ∀ sk, res = .ok sk → GoodFor ⟨.sk, 0⟩ sk w)
+      apply CSpec.bind_frame (G1 := fun res w => ∀ sk, res = .ok sk → GoodFor ⟨.sk, 0⟩ sk w)
         (P' := fun w => r ∈ w.store) _ (fun w _ h => h.2.1) (by stable_auto)
       · intro res
         split
-        · exact (createIntermediateKey_spec x rl).pre fun w _ h => h.1.1
+        · exact (createIntermediateKey_cspec x rl).pre fun w _ h => h.1.1
         · rename_i sk
-          refine Spec.finallyDo ?_ (fun _ => Stable.goodFor _ _) (keyRelease_spec sk)
-          apply Spec.pre (P := fun w => TimeOK x w ∧ r ∈ w.store ∧ GoodFor ⟨.sk, 0⟩ sk w)
+          refine CSpec.finallyDo ?_ (fun _ => Stable.goodFor _ _) (keyRelease_cspec sk)
+          apply CSpec.pre (P := fun w => TimeOK x w ∧ r ∈ w.store ∧ GoodFor ⟨.sk, 0⟩ sk w)
             (fun w _ h => ⟨h.1.1, h.1.2.1, h.2 sk rfl⟩)
-          apply Spec.bind_frame (getValidIntermediateKey_spec x sk r rl hrk) (fun w _ h => h.2) (by stable_auto)
+          apply CSpec.bind_frame (getValidIntermediateKey_cspec x sk r rl hrk) (fun w _ h => h.2) (by stable_auto)
           intro iko
           split
           · rename_i ik
-            refine Spec.pure _ fun w _ h => ?_
+            refine CSpec.pure _ fun w _ h => ?_
             have := (h.2 ik rfl).goodFor0
             rw [hrk] at this; exact this
-          · exact (createIntermediateKey_spec x rl).pre fun w _ h => h.1.1
-      · refine Spec.weaken (getOrLoadSystemKey_spec x ⟨.sk, c⟩ rfl).tryM ?_ ?_
+          · exact (createIntermediateKey_cspec x rl).pre fun w _ h => h.1.1
+      · refine CSpec.weaken (getOrLoadSystemKey_cspec x ⟨.sk, c⟩ rfl).tryM ?_ ?_
         · intro w hi hr _
           obtain ⟨c', skm, n, mat, h1, h2⟩ := hi.ikRow hr (hrk.trans (ikId_eq x))
           rw [hpar] at h1
@@ -302,18 +302,18 @@ theorem loadLatestOrCreateIntermediateKey_spec {a : Nat} {F : Prop} (x : Ctx) (r
           have := GoodFor.of_nz hcz (h.1 sk hsk)
           exact this.goodFor0
 
-theorem loadIntermediateKey_spec {a : Nat} {F : Prop} (x : Ctx) (m : KeyMeta) (rl : Bool) (hk : m.kid = x.ikId) :
-    Spec a F (fun w => F → ∃ mat, Wraps w.store m mat) (loadIntermediateKey x m rl) (GoodFor m) := by
+theorem loadIntermediateKey_cspec {a : Nat} {F : Prop} (x : Ctx) (m : KeyMeta) (rl : Bool) (hk : m.kid = x.ikId) :
+    CSpec a F (fun w => F → ∃ mat, Wraps w.store m mat) (loadIntermediateKey x m rl) (GoodFor m) := by
   unfold loadIntermediateKey
-  apply Spec.bind_frame (msLoad_spec m) (fun _ _ _ => trivial) (by stable_auto)
+  apply CSpec.bind_frame (msLoad_spec m) (fun _ _ _ => trivial) (by stable_auto)
   intro ro
   split
-  · apply Spec.throw
+  · apply CSpec.throw
     intro w _ h hF
     obtain ⟨mat, r, hr, h1, h2, _⟩ := h.1 hF
     exact findRow_none h.2.symm r hr ⟨h1, h2⟩
   · rename_i r
-    apply Spec.pre (P := fun w => r ∈ w.store ∧ (r.kid = x.ikId ∧ r.created = m.created))
+    apply CSpec.pre (P := fun w => r ∈ w.store ∧ (r.kid = x.ikId ∧ r.created = m.created))
       (fun w _ h => by have := findRow_some h.2.symm; exact ⟨this.1, this.2.1.trans hk, this.2.2⟩)
     have hext : Extends (match r.parent with
         | none => throw .noParent
@@ -321,18 +321,18 @@ theorem loadIntermediateKey_spec {a : Nat} {F : Prop} (x : Ctx) (m : KeyMeta) (r
           let sk ← getOrLoadSystemKey x p
           finallyDo (intermediateKeyFromEKR x sk r rl) (keyRelease sk)) := by
       ext_auto [getOrLoadSystemKey_ext, intermediateKeyFromEKR_ext, keyRelease_ext]
-    apply Spec.of_pre (C := (r.kid = x.ikId ∧ r.created = m.created) ∧ ∃ c, r.parent = some ⟨.sk, c⟩ ∧ c ≠ 0) hext
+    apply CSpec.of_pre (C := (r.kid = x.ikId ∧ r.created = m.created) ∧ ∃ c, r.parent = some ⟨.sk, c⟩ ∧ c ≠ 0) hext
     · intro w hi h
       obtain ⟨c, skm, n, mat, h1, h2⟩ := hi.ikRow h.1 (h.2.1.trans (ikId_eq x))
       exact ⟨h.2, c, h1.1, h1.2.2⟩
     intro ⟨⟨hrk, hrc⟩, c, hpar, hcz⟩
     rw [hpar]
     dsimp only
-    apply Spec.pre (P := fun w => r ∈ w.store) (fun w _ h => h.1)
-    apply Spec.bind_frame (getOrLoadSystemKey_spec x ⟨.sk, c⟩ rfl) _ (by stable_auto)
+    apply CSpec.pre (P := fun w => r ∈ w.store) (fun w _ h => h.1)
+    apply CSpec.bind_frame (getOrLoadSystemKey_cspec x ⟨.sk, c⟩ rfl) _ (by stable_auto)
     · intro sk
-      refine Spec.finallyDo ?_ (fun _ => Stable.goodFor _ _) (keyRelease_spec sk)
-      refine (intermediateKeyFromEKR_spec x sk r rl hrk).weaken
+      refine CSpec.finallyDo ?_ (fun _ => Stable.goodFor _ _) (keyRelease_cspec sk)
+      refine (intermediateKeyFromEKR_cspec x sk r rl hrk).weaken
         (fun w _ h => ⟨h.1, (GoodFor.of_nz hcz h.2).goodFor0⟩) fun k w _ h => ?_
       exact (h.congr (m' := m) (hrk.trans hk.symm) hrc).goodFor
     · intro w hi hr _
